@@ -8,7 +8,7 @@ import (
 	"github.com/gkampitakis/go-snaps/internal/vxrt"
 )
 
-func cfgEqual(a, b Config) bool {
+func vxCfgEqual(a, b Config) bool {
 	if a.filename != b.filename || a.snapsDir != b.snapsDir || a.extension != b.extension {
 		return false
 	}
@@ -22,7 +22,7 @@ func cfgEqual(a, b Config) bool {
 }
 
 // cfgSnap is a deep copy of a Config (the update flag and the JSON options are held by pointer).
-func cfgSnap(c *Config) Config {
+func vxCfgSnap(c *Config) Config {
 	out := *c
 	if c.update != nil {
 		u := *c.update
@@ -36,7 +36,7 @@ func cfgSnap(c *Config) Config {
 }
 
 // freezeCfg arms the write monitor on a Config and on what it points to.
-func freezeCfg(c *Config, what string) {
+func vxFreezeCfg(c *Config, what string) {
 	vxrt.Freeze(c, what)
 	if c.json != nil {
 		vxrt.Freeze(c.json, what+" (JSON options)")
@@ -46,7 +46,7 @@ func freezeCfg(c *Config, what string) {
 	}
 }
 
-func callAPI(c *Config, api int, t *mockT, v string) {
+func vxCallAPI(c *Config, api int, t *vxMockT, v string) {
 	switch api {
 	case 0:
 		c.MatchSnapshot(t, v)
@@ -88,7 +88,7 @@ func H_C12_immutable() {
 	}
 	c1 := WithConfig(opts...)
 	c2 := WithConfig(Dir(dir), Filename("other"))
-	snap1, snap2, snapDef := cfgSnap(c1), cfgSnap(c2), cfgSnap(&defaultConfig)
+	snap1, snap2, snapDef := vxCfgSnap(c1), vxCfgSnap(c2), vxCfgSnap(&defaultConfig)
 	var json1 JSONConfig
 	if c1.json != nil {
 		json1 = *c1.json
@@ -97,8 +97,8 @@ func H_C12_immutable() {
 	// must not reach into c1
 	c3 := WithConfig(append(append([]func(*Config){}, opts...), JSON(JSONConfig{Indent: "\t", Width: 7}), Ext(".x"), Filename("third"), Update(false))...)
 	_ = c3
-	vxrt.Assert(cfgEqual(*c1, snap1) && (c1.json == nil || *c1.json == json1), "C12:configs-built-from-shared-options-are-independent")
-	freezeCfg(c1, "shared Config c1")
+	vxrt.Assert(vxCfgEqual(*c1, snap1) && (c1.json == nil || *c1.json == json1), "C12:configs-built-from-shared-options-are-independent")
+	vxFreezeCfg(c1, "shared Config c1")
 
 	seq := vxrt.Len("calls", 1, vxrt.Param("calls", 2))
 	apis := make([]int, seq)
@@ -107,29 +107,29 @@ func H_C12_immutable() {
 	}
 	// where does the last call store when issued alone through an identical fresh Config?
 	fresh := WithConfig(opts...)
-	tl := newT("TestL")
-	before := dirNames(dir)
-	callAPI(fresh, apis[seq-1], tl, `"v"`)
+	tl := vxNewT("TestL")
+	before := vxDirNames(dir)
+	vxCallAPI(fresh, apis[seq-1], tl, `"v"`)
 	tl.end()
-	alone := newNames(before, dirNames(dir))
+	alone := vxNewNames(before, vxDirNames(dir))
 	// reset the directory and the registries' view by using a different test name below
-	for _, nme := range dirNames(dir) {
-		removeFile(dir + "/" + nme)
+	for _, nme := range vxDirNames(dir) {
+		vxRemoveFile(dir + "/" + nme)
 	}
 
 	for k := 0; k < seq; k++ {
-		t := newT("TestL")
+		t := vxNewT("TestL")
 		if k < seq-1 {
-			t = newT("TestK")
+			t = vxNewT("TestK")
 		}
-		callAPI(c1, apis[k], t, `"v"`)
+		vxCallAPI(c1, apis[k], t, `"v"`)
 		t.end()
-		vxrt.Assert(cfgEqual(*c1, snap1), "C12:config-unchanged-by-call")
-		vxrt.Assert(cfgEqual(*c2, snap2), "C12:other-config-unchanged")
-		vxrt.Assert(cfgEqual(defaultConfig, snapDef), "C12:defaults-unchanged")
+		vxrt.Assert(vxCfgEqual(*c1, snap1), "C12:config-unchanged-by-call")
+		vxrt.Assert(vxCfgEqual(*c2, snap2), "C12:other-config-unchanged")
+		vxrt.Assert(vxCfgEqual(defaultConfig, snapDef), "C12:defaults-unchanged")
 		if k == seq-1 {
 			// every file the lone call created exists after the sequence as well
-			after := dirNames(dir)
+			after := vxDirNames(dir)
 			same := true
 			for _, a := range alone {
 				found := false
@@ -143,12 +143,12 @@ func H_C12_immutable() {
 	}
 }
 
-func dirNames(dir string) []string {
-	n, _ := osReadDirNames(dir)
+func vxDirNames(dir string) []string {
+	n, _ := vxOsReadDirNames(dir)
 	return n
 }
 
-func newNames(before, after []string) []string {
+func vxNewNames(before, after []string) []string {
 	var out []string
 	for _, a := range after {
 		found := false
@@ -183,47 +183,47 @@ func H_C12_concurrent() {
 		opts = append(opts, JSON(JSONConfig{SortKeys: true}))
 	}
 	c1 := WithConfig(opts...)
-	snap1 := cfgSnap(c1)
-	forceInit()
-	freezeCfg(c1, "shared Config c1")
+	snap1 := vxCfgSnap(c1)
+	vxForceInit()
+	vxFreezeCfg(c1, "shared Config c1")
 	apis := [2]int{vxrt.Choice("api-A", 5), vxrt.Choice("api-B", 5)}
 	// where each call stores when issued alone through an identical Config
 	var alone [2][]string
 	for g := 0; g < 2; g++ {
 		fresh := WithConfig(opts...)
-		t := newT([]string{"TestA", "TestB"}[g])
-		before := dirNames(dir)
+		t := vxNewT([]string{"TestA", "TestB"}[g])
+		before := vxDirNames(dir)
 		// in a goroutine of its own, as in the concurrent run below (a goroutine's call
 		// stack does not end in the test runner, which matters for the default file name)
 		var w1 sync.WaitGroup
 		w1.Add(1)
 		go func() {
 			defer w1.Done()
-			callAPI(fresh, apis[g], t, `"v"`)
+			vxCallAPI(fresh, apis[g], t, `"v"`)
 		}()
 		w1.Wait()
 		t.end()
-		alone[g] = newNames(before, dirNames(dir))
-		for _, nme := range dirNames(dir) {
-			removeFile(dir + "/" + nme)
+		alone[g] = vxNewNames(before, vxDirNames(dir))
+		for _, nme := range vxDirNames(dir) {
+			vxRemoveFile(dir + "/" + nme)
 		}
 	}
-	ts := [2]*mockT{newT("TestA"), newT("TestB")}
+	ts := [2]*vxMockT{vxNewT("TestA"), vxNewT("TestB")}
 	var wg sync.WaitGroup
 	wg.Add(2)
 	for g := 0; g < 2; g++ {
 		g := g
 		go func() {
 			defer wg.Done()
-			callAPI(c1, apis[g], ts[g], `"v"`)
+			vxCallAPI(c1, apis[g], ts[g], `"v"`)
 		}()
 	}
 	wg.Wait()
 	ts[0].end()
 	ts[1].end()
-	vxrt.Assert(cfgEqual(*c1, snap1), "C12:config-unchanged-by-concurrent-calls")
+	vxrt.Assert(vxCfgEqual(*c1, snap1), "C12:config-unchanged-by-concurrent-calls")
 	vxrt.Assert(len(ts[0].errors)+len(ts[1].errors) == 0, "C12:concurrent-calls-succeed")
-	after := dirNames(dir)
+	after := vxDirNames(dir)
 	for g := 0; g < 2; g++ {
 		for _, a := range alone[g] {
 			found := false
@@ -253,7 +253,7 @@ func H_C12_independent() {
 	}
 	const doc = `{"b":[1,2],"a":"x"}`
 	api := vxrt.Choice("api", 2)
-	call := func(g int, t *mockT) {
+	call := func(g int, t *vxMockT) {
 		if api == 0 {
 			cfg[g].MatchJSON(t, doc)
 		} else {
@@ -263,16 +263,16 @@ func H_C12_independent() {
 	// what each call stores alone
 	var alone [2]string
 	for g := 0; g < 2; g++ {
-		t := newT([]string{"TestA", "TestB"}[g])
+		t := vxNewT([]string{"TestA", "TestB"}[g])
 		call(g, t)
 		t.end()
-		alone[g] = dumpDir(dir)
-		for _, nme := range dirNames(dir) {
-			removeFile(dir + "/" + nme)
+		alone[g] = vxDumpDir(dir)
+		for _, nme := range vxDirNames(dir) {
+			vxRemoveFile(dir + "/" + nme)
 		}
 	}
 	vxrt.Assert(alone[0] != alone[1], "C12:harness-configs-format-differently")
-	ts := [2]*mockT{newT("TestA"), newT("TestB")}
+	ts := [2]*vxMockT{vxNewT("TestA"), vxNewT("TestB")}
 	var wg sync.WaitGroup
 	wg.Add(2)
 	for g := 0; g < 2; g++ {
@@ -287,13 +287,13 @@ func H_C12_independent() {
 	ts[1].end()
 	vxrt.Assert(len(ts[0].errors)+len(ts[1].errors) == 0, "C12:concurrent-calls-succeed")
 	// the directory now holds exactly the two lone results
-	both := dumpDir(dir)
-	for _, nme := range dirNames(dir) {
+	both := vxDumpDir(dir)
+	for _, nme := range vxDirNames(dir) {
 		if len(nme) >= 2 && nme[:2] == "fb" {
-			removeFile(dir + "/" + nme)
+			vxRemoveFile(dir + "/" + nme)
 		}
 	}
-	onlyA := dumpDir(dir)
+	onlyA := vxDumpDir(dir)
 	vxrt.Assert(onlyA == alone[0], "C12:config-A-result-independent-of-concurrent-config-B")
 	vxrt.Assert(len(both) == len(alone[0])+len(alone[1]), "C12:config-B-result-independent-of-concurrent-config-A")
 }
@@ -315,7 +315,7 @@ func H_C12_mismatch() {
 		opts = append(opts, Filename("a/b"))
 	}
 	c1 := WithConfig(opts...)
-	snap := cfgSnap(c1)
+	snap := vxCfgSnap(c1)
 	apiA, apiB := vxrt.Choice("api-A", 5), vxrt.Choice("api-B", 5)
 	firstMismatches := vxrt.Bool("first-call-mismatches")
 	// (with a Filename, standalone files are numbered per file name, not per test: two tests using
@@ -323,31 +323,31 @@ func H_C12_mismatch() {
 	vxrt.Assume(!(len(opts) > 1 && apiA >= 3 && apiA == apiB))
 	// both slots are recorded through an identical Config first
 	fresh := WithConfig(opts...)
-	t0a, t0b := newT("TestA"), newT("TestB")
+	t0a, t0b := vxNewT("TestA"), vxNewT("TestB")
 	if firstMismatches {
-		callAPI(fresh, apiA, t0a, `"w"`)
+		vxCallAPI(fresh, apiA, t0a, `"w"`)
 	} else {
-		callAPI(fresh, apiA, t0a, `"v"`)
+		vxCallAPI(fresh, apiA, t0a, `"v"`)
 	}
-	callAPI(fresh, apiB, t0b, `"v"`)
+	vxCallAPI(fresh, apiB, t0b, `"v"`)
 	t0a.end()
 	t0b.end()
 	vxrt.Assert(len(t0a.errors)+len(t0b.errors) == 0, "setup:recorded")
-	before := dumpDir(dir)
-	freezeCfg(c1, "shared Config c1")
-	tA := newT("TestA")
-	callAPI(c1, apiA, tA, `"v"`)
+	before := vxDumpDir(dir)
+	vxFreezeCfg(c1, "shared Config c1")
+	tA := vxNewT("TestA")
+	vxCallAPI(c1, apiA, tA, `"v"`)
 	tA.end()
 	if firstMismatches {
 		vxrt.Assert(len(tA.errors) == 1 && len(tA.logs) == 0, "C12:first-call-behaves-as-through-a-fresh-config")
 	} else {
 		vxrt.Assert(len(tA.errors) == 0 && len(tA.logs) == 0, "C12:first-call-behaves-as-through-a-fresh-config")
 	}
-	vxrt.Assert(cfgEqual(*c1, snap), "C12:config-unchanged-by-call")
-	tB := newT("TestB")
-	callAPI(c1, apiB, tB, `"v"`)
+	vxrt.Assert(vxCfgEqual(*c1, snap), "C12:config-unchanged-by-call")
+	tB := vxNewT("TestB")
+	vxCallAPI(c1, apiB, tB, `"v"`)
 	tB.end()
 	vxrt.Assert(len(tB.errors) == 0 && len(tB.logs) == 0, "C12:later-call-independent-of-earlier-calls")
-	vxrt.Assert(dumpDir(dir) == before, "C12:nothing-written-by-replays")
-	vxrt.Assert(cfgEqual(*c1, snap), "C12:config-unchanged-by-call")
+	vxrt.Assert(vxDumpDir(dir) == before, "C12:nothing-written-by-replays")
+	vxrt.Assert(vxCfgEqual(*c1, snap), "C12:config-unchanged-by-call")
 }
